@@ -44,4 +44,12 @@ REGISTRY = {
                      "every numeric field of the model is produced by number / number64 (visible in Grammar/*.lean)"],
         explanation="exactness, completeness with zero padding and rejection without wrap are theorems about numberB for every digit string; the literal length goes through the same function",
     ),
+    "C09": dict(PARSER_COMMON,
+        module="ImapVerif.Properties.C09",
+        theorems=["C09.complete_line_verdict", "C09.incomplete_is_open", "C09.ok_ends_after_seg",
+                  "C09.no_literal_ends_at_first_crlf", "C09.consumed_is_seg",
+                  "Line.frameEnd_none_of_segOpen"],
+        assumptions=["Line.frameEnd is the IMAP framing rule (scan to CRLF; a line ending in {n} is followed by n literal bytes); the harness has an independently written framer with the same rule"],
+        explanation="LineOpen parseResponse: Incomplete implies the buffer is a Seg followed by an open tail; an open buffer holds no complete frame (induction over Seg, generalised over the current line's prefix); hence a complete frame is never answered Incomplete. LineEnd: an accept is a Seg followed by CRLF.",
+    ),
 }
